@@ -177,6 +177,24 @@ func runC15(rec *vkit.Recorder, c *c15Case) []vkit.Violation {
 		}
 	}
 
+	// discovery meta data is not part of a target's identity: a __meta_ label that no rule reads (the job has no rules)
+	// may be there or not, and may change between rounds (readiness of a pod, the file a target was found in)
+	if len(c.Job.Rules) == 0 && len(set) > 0 {
+		withMeta := func(v string) []grpSpec {
+			out := make([]grpSpec, len(c.Groups))
+			for i, g := range c.Groups {
+				out[i] = grpSpec{Source: g.Source, Targets: g.Targets, Labels: map[string]string{"__meta_verif_pod_ready": v}}
+				for k, x := range g.Labels {
+					out[i].Labels[k] = x
+				}
+			}
+			return out
+		}
+		check("meta-label-added", withMeta("true"), &c.Job)
+		check("meta-label-changed", withMeta("false"), &c.Job)
+		rec.Class("neutral/meta-label-added-and-changed")
+	}
+
 	// the name of the scrape config is not part of a target's identity: when every target carries a discovered `job`
 	// label (Prometheus keeps a non-empty one), renaming the job leaves all final labels and URLs as they were
 	if len(c.Job.Rules) == 0 && len(set) > 0 {
